@@ -92,6 +92,41 @@ def corruptions(run, report, seed):
     ev = copy.deepcopy(base)
     del ev[lg[1]]
     report("an event of a league dropped -> bind.heap (ill-formed trace)", any(f.startswith("bind.heap") for f in verdicts(ev)))
+    # the inside of a call (Stages.tla): observed helper values
+    s3 = Session()
+    s3.stages_on = True
+    drivers.rate_campaign(s3, random.Random(seed + 1), 40, simple=True)
+    sb = s3.events
+
+    def sverdicts(events):
+        res = tlc.validate(events, {"S"}, run.wd)
+        return [f for (_e, fails, _c) in res["results"] for f in fails]
+
+    report("accepted stage records have no failing clause", sverdicts(sb) == [])
+
+    def stage_at(name, ok=lambda st: True):
+        for i, e in enumerate(sb):
+            for k, st in enumerate(e.get("stages", [])):
+                if st["name"] == name and ok(st) and e["out"]["kind"] == "ok":
+                    return i, k
+        raise MachineryError("selftest: no stage %s" % name)
+
+    i, k = stage_at("sort", lambda st: len(set(st["ints"])) > 1)
+    ev = copy.deepcopy(sb)
+    ev[i]["stages"][k]["ints"][0], ev[i]["stages"][k]["ints"][1] = ev[i]["stages"][k]["ints"][1], ev[i]["stages"][k]["ints"][0]
+    report("two positions of the observed sort exchanged -> S.sort.order", "S.sort.order" in sverdicts(ev))
+    i, k = stage_at("agg")
+    ev = copy.deepcopy(sb)
+    ev[i]["stages"][k]["nums2"][0] = repr(float(ev[i]["stages"][k]["nums2"][0]) * 1.0001)
+    report("an observed team variance changed by 1e-4 -> S.agg.sigma_squared", "S.agg.sigma_squared" in sverdicts(ev))
+    i, k = stage_at("ladder")
+    ev = copy.deepcopy(sb)
+    ev[i]["stages"][k]["lists"][0] = []
+    report("an observed ladder neighbour dropped -> S.ladder.neighbours", "S.ladder.neighbours" in sverdicts(ev))
+    i, k = stage_at("gamma")
+    ev = copy.deepcopy(sb)
+    ev[i]["stages"][k]["ints"][2] += 1
+    report("the rank handed to the gamma callback changed -> S.gamma.rank", "S.gamma.rank" in sverdicts(ev))
     # threads: an inserted write
     import sched
     s2 = Session()
